@@ -173,12 +173,20 @@ pub fn output_tokens(
         }
     });
 
+    // A trait that is deprecated is so for those who use it: the impl that comes with it is not one of them
+    let opt_allow_deprecated = out_trait
+        .attrs
+        .iter()
+        .any(|attr| attr.path().is_ident("deprecated"))
+        .then(|| quote! { #[allow(deprecated)] });
+
     let out = quote! {
         #trait_def
 
         #delegation_trait_def
 
         #(#impl_sub_attributes)*
+        #opt_allow_deprecated
         #trait_unsafety impl #params #trait_ident #args for #self_ty #where_clause {
             #(#type_items)*
             #(#method_items)*
